@@ -143,3 +143,12 @@ fn generate_inner(p: &Command, previous_command_name: &str) -> String {
 
     subcommands_cases
 }
+
+#[cfg(clap_verif)]
+pub(crate) fn verif_escape(kind: &str, s: &str) -> Option<String> {
+    match kind {
+        "elvish_string" => Some(escape_string(s)),
+        "elvish_help" => Some(escape_help(Some(&StyledStr::from(s.to_owned())), "")),
+        _ => None,
+    }
+}
